@@ -762,7 +762,9 @@ class ModelGen(Gen):
                 sections.append((("kw", "eqn", k), eqn[k]))
         if subs_nodes:
             sections.append((("kw", "subs", None), subs_nodes))
-        if log_nodes or r.random() < 0.1:
+        if log_nodes or r.random() < 0.3:
+            if not log_nodes and r.random() < 0.6:
+                allbut = True          # `!log-variables !all-but` with nothing listed: the idiom for "every variable is a log variable"
             sections.append((("kw", "log", allbut), log_nodes))
         split = []
         for kw, nodes in sections:
